@@ -198,6 +198,10 @@ where
     #[pin]
     inner: InnerCheckoutConnecting<T, P, B>,
     connection: Option<P::Connection>,
+
+    /// This checkout marked its token as connecting in the pool, and is responsible
+    /// for clearing that mark (and releasing whoever waits for it) when it goes away.
+    owner: bool,
     meta: ConnectorMeta,
     #[cfg(debug_assertions)]
     id: CheckoutId,
@@ -240,6 +244,7 @@ where
                     waiter: Waiting::NoPool,
                     inner: InnerCheckoutConnecting::ConnectingDelayed(connector.take().unwrap()),
                     connection: None,
+                    owner: std::mem::take(this.owner),
                     meta: ConnectorMeta::new(), // New meta to avoid holding spans in the spawned task
                     #[cfg(debug_assertions)]
                     id: *this.id,
@@ -277,6 +282,7 @@ where
             waiter: Waiting::NoPool,
             inner: InnerCheckoutConnecting::Connecting(connector),
             connection: None,
+            owner: false,
             meta: ConnectorMeta::new(),
             #[cfg(debug_assertions)]
             id,
@@ -289,6 +295,7 @@ where
         waiter: Receiver<Pooled<P::Connection, B>>,
         connect: Option<Connector<T, P, B>>,
         connection: Option<P::Connection>,
+        owner: bool,
         config: &Config,
     ) -> Self {
         #[cfg(debug_assertions)]
@@ -306,6 +313,7 @@ where
                 waiter: Waiting::Idle(waiter),
                 inner: InnerCheckoutConnecting::Connected,
                 connection,
+                owner,
                 meta,
                 #[cfg(debug_assertions)]
                 id,
@@ -325,6 +333,7 @@ where
                 waiter: Waiting::Idle(waiter),
                 inner,
                 connection,
+                owner,
                 meta,
                 #[cfg(debug_assertions)]
                 id,
@@ -337,6 +346,7 @@ where
                 waiter: Waiting::Connecting(waiter),
                 inner: InnerCheckoutConnecting::Waiting,
                 connection,
+                owner,
                 meta,
                 #[cfg(debug_assertions)]
                 id,
@@ -521,9 +531,12 @@ where
                     tracing::error!(error=%err, "error during delayed drop");
                 }
             });
-        } else if let Some(mut pool) = self.pool.lock() {
-            // Connection is only cancled when no delayed drop occurs.
-            pool.cancel_connection(self.token);
+        } else if self.owner {
+            // Connection is only cancled when no delayed drop occurs, and only by the
+            // checkout which announced it to the pool.
+            if let Some(mut pool) = self.pool.lock() {
+                pool.cancel_connection(self.token);
+            }
         }
     }
 }
